@@ -59,6 +59,9 @@ type Analysis struct {
 	// canonical description of the arguments); each call is recorded
 	uninterp map[*ssa.Function]string
 	ucalls   []UCall
+	// logCalls: record every evaluated call (static, invoke, dynamic) with its abstract arguments
+	logCalls bool
+	calls    []*CallRec
 }
 
 // UCall is one recorded call of an uninterpreted function.
@@ -70,6 +73,19 @@ type UCall struct {
 	pos    token.Pos
 	frame  *Frame
 	nwrite map[*Root]int // number of writes each argument root had when the call happened
+}
+
+// CallRec is one evaluated call instruction.
+type CallRec struct {
+	instr  *ssa.Call
+	frame  *Frame
+	callee *ssa.Function // static callee, if any
+	method string        // interface method name for invoke calls
+	dyn    AV            // called value for dynamic calls
+	recv   AV            // receiver of an invoke call
+	args   []AV
+	res    AV
+	state  DNF
 }
 
 type ReturnSite struct {
@@ -1279,6 +1295,24 @@ func (f *Frame) loadPath(o *Obj, path string, t types.Type, at ssa.Instruction) 
 	}
 	// exact path
 	if recs := o.stores[path]; len(recs) > 0 {
+		// most recent store in the same block wins (block-local flow sensitivity; covers the
+		// named-result spill `*res = v; rundefers; t = *res; return t`)
+		if at != nil && at.Block() != nil && !f.hasSubStores(o, path) && !f.hasPrefixStores(o, path) {
+			var last *storeRec
+			for _, in := range at.Block().Instrs {
+				if in == at {
+					break
+				}
+				for i := range recs {
+					if recs[i].instr == in {
+						last = &recs[i]
+					}
+				}
+			}
+			if last != nil {
+				return last.val
+			}
+		}
 		if f.storeCount(o, path) == 1 && f.dominates(recs[0].instr, at) && !f.hasSubStores(o, path) && !f.hasPrefixStores(o, path) {
 			return recs[0].val
 		}
